@@ -244,11 +244,40 @@ def collapse (lk : Lookup) (name : Name) : Except Err (List (String × String)) 
           let keys := (dedup (slist.flatMap (fun e => e.conf.items.map (·.1)))).filter (fun k => !(specialKeys.contains k))
           .ok (keys.filterMap (fun k => (firstDef k slist).map (k, ·)))
 
+/-- stands for Python's `None`, the name under which `collapse_section([section])` walks an anonymous (inline) section:
+it equals no section name and no name in an inherit list (the driver rejects inputs that use it), so neither the
+self-inherit test `inherit == current_section` nor `inherit in inherit_names` can hit it -/
+def anonName : Name := "<anonymous>"
+
+/-- the part of `collapse_section` after `_get_inherited_sections`: `class` required, special keys dropped, first holder
+of every key wins -/
+def finish (slist : List Entry) : Except Err (List (String × String)) :=
+  match firstDef "class" slist with
+  | none => .error .noClass
+  | some _ =>
+    let keys := (dedup (slist.flatMap (fun e => e.conf.items.map (·.1)))).filter (fun k => !(specialKeys.contains k))
+    .ok (keys.filterMap (fun k => (firstDef k slist).map (k, ·)))
+
+/-- `collapse_section([sec])` for an anonymous section (inline `ref:`/`refs:` values, `LazyUnnamedSectionRef`): the
+stack has one element and the name is `None` -/
+def collapseAnon (lk : Lookup) (sec : Sec) : Except Err (List (String × String)) :=
+  if sec.inheritOnly then .error .inheritOnly
+  else match loop lk [⟨anonName, sec, []⟩] [anonName] [] with
+    | .error e => .error e
+    | .ok slist => finish slist
+
 /-- the relevant sections themselves (for inspection by the driver) -/
 def inherited (lk : Lookup) (name : Name) : Except Err (List Entry) :=
   match stackOf lk name with
   | none => .error (.noSection name)
   | some (c, r) => loop lk [⟨name, c, r⟩] [name] []
+
+/-- the relevant sections of an anonymous section -/
+def inheritedAnon (lk : Lookup) (sec : Sec) : Except Err (List Entry) := loop lk [⟨anonName, sec, []⟩] [anonName] []
+
+/-- `is_default = bool(config_stack.render_value("default"))`: the raw value of the first relevant section holding the
+key `default` (whatever it is — an explicit false shadows an inherited true) -/
+def defaultOf (slist : List Entry) : Option String := firstDef "default" slist
 
 /-! ## the manager over time: `rendered_sections`, `add_config_source`, `reload`
 
@@ -273,6 +302,7 @@ inductive MOp
   | collapse (name : Name)         -- `collapse_named_section(name)`
   | addSource (src : Source)       -- `add_config_source(src)`
   | reload                         -- `reload()`
+  | collapseAnon (sec : Sec)       -- `collapse_section([sec])` on an anonymous section (not cached by the manager)
 
 /-- one call; `some r` = what a collapse returned -/
 def Mgr.step (m : Mgr) : MOp → Mgr × Option (Except Err Cfg)
@@ -285,6 +315,7 @@ def Mgr.step (m : Mgr) : MOp → Mgr × Option (Except Err Cfg)
       | .error e => (m, some (.error e))
   | .addSource src => (Mgr.reload { m with sources := m.sources ++ [src] }, none)
   | .reload => (m.reload, none)
+  | .collapseAnon sec => (m, some (collapseAnon m.lookup sec))
 
 def Mgr.run : Mgr → List MOp → Mgr × List (Option (Except Err Cfg))
   | m, [] => (m, [])
